@@ -43,6 +43,11 @@ type FCBody struct {
 	// connected to it loses its connection)
 	RestartFollowerMs int `json:"restart_follower_ms,omitempty"`
 	LingerS           int `json:"linger_s"`
+	// RepointMs > 0: at that time the last follower is told to follow an address nobody listens on
+	// (the admin command's path, ReplicationManager.ChangeLeader): it sits in the syncing state with
+	// the holds it has replicated, for RepointForS seconds, and is then pointed back at the leader
+	RepointMs   int `json:"repoint_ms,omitempty"`
+	RepointForS int `json:"repoint_for_s,omitempty"`
 }
 
 func genFollowerClients(prop string, seed uint64, tier string) *Scenario {
@@ -79,6 +84,10 @@ func genFollowerClients(prop string, seed uint64, tier string) *Scenario {
 	}
 	if r.Intn(5) == 0 {
 		body.RestartFollowerMs = 1500 + r.Intn(3000)
+	}
+	if r.Intn(3) == 0 && !(body.NFollowers == 1 && body.RestartFollowerMs > 0) {
+		body.RepointMs = 1500 + r.Intn(6000)
+		body.RepointForS = 5 + r.Intn(40)
 	}
 	raw, _ := json.Marshal(body)
 	k := genKnobs(r)
@@ -364,6 +373,49 @@ func runFollowerClients(w *World) {
 			fr.fnodes[0] = w.boot(id, cfg)
 			nodeOf[id] = fr.fnodes[0]
 			w.fault("follower_restart")
+		}
+		if body.RepointMs > 0 {
+			fn := fr.fnodes[len(fr.fnodes)-1]
+			if d := t0.Add(time.Duration(body.RepointMs) * time.Millisecond).Sub(w.now()); d > 0 {
+				sleep(d)
+			}
+			holds := 0
+			ssched.NoPreempt(func() {
+				for _, db := range fn.sl.dbs {
+					if db != nil {
+						for _, m := range allManagers(db) {
+							holds += len(holdersOf(m))
+						}
+					}
+				}
+			})
+			if holds > 0 {
+				w.probe("repoints_with_replicated_holds")
+			}
+			repointed := false
+			ssched.SpawnOn(fn.id, "repoint", func() {
+				if err := fn.sl.replicationManager.ChangeLeader("127.0.0.1:5999"); err != nil {
+					w.logf("REPOINT n%d: %v", fn.id, err)
+					return
+				}
+				repointed = true
+				w.logf("REPOINT n%d to an unreachable leader: state %d", fn.id, fn.sl.state)
+			})
+			w.fault("follower_repointed")
+			sleep(time.Duration(body.RepointForS) * time.Second)
+			if repointed {
+				if fn.sl.state != STATE_FOLLOWER {
+					w.probe("repoint_left_follower_state")
+				}
+				back := false
+				ssched.SpawnOn(fn.id, "repoint-back", func() {
+					_ = fn.sl.replicationManager.ChangeLeader(leaderAddr)
+					back = true
+				})
+				for i := 0; i < 400 && !back; i++ {
+					sleep(50 * time.Millisecond)
+				}
+			}
 		}
 		for cdone < len(body.Clients) {
 			sleep(50 * time.Millisecond)
